@@ -8,7 +8,7 @@ HERE = os.path.dirname(os.path.dirname(os.path.abspath(__file__)))
 
 # id -> (technique, level text, level note, design ref)
 CHECKS = {
-    "C01": ("Hypothesis: rendered derivation trees with by-construction oracle + single-malformation rejection",
+    "C01": ("Hypothesis: rendered derivation trees with by-construction oracle + single-malformation rejection; thorough tier adds atheris/libFuzzer coverage-guided campaigns over the same strategies and oracles",
             "Generated search: thousands of derivation trees of the documented grammar are rendered to strings and the "
             "parsed composition, charge and density compared with values computed from the tree; one-malformation "
             "variants must raise. Public and private table. Exploration, not proof: absence is claimed only for the "
@@ -18,7 +18,7 @@ CHECKS = {
     "C09": ("fork-per-history exploration of first-touch event sequences against a canonical-run oracle (singles, pairs, "
             "state-closure BFS, Hypothesis lists, ddmin shrinking)",
             "Every history of lazy-load first-touch events runs in a fresh interpreter; per-event observations and a digest of "
-            "everything the public table serves must equal the canonical run. Quick: all 318 single events, 40% of the "
+            "everything the public table serves must equal the canonical run. Quick: all single events (405 incl. reload=True inits, secondary calculators and probes through a bare private table), 30% of the "
             "same-group pairs, generated histories; thorough: all pairs of a reduced alphabet, breadth-first closure of the "
             "abstract loader state, thousands of generated histories. Exploration of a finite but large history space.",
             "fork() of a zygote that never imported periodictable stands for a fresh interpreter; digest samples 12 atoms for x-ray.",
@@ -80,7 +80,7 @@ CHECKS = {
             "neutron_sld itself is trusted here (C03 decides it); Formula.replace is not used by the oracle.",
             "DESIGN.md section 4 C16"),
     "C18": ("Hypothesis search over code strings, permutations and rendered FASTA texts against sums over base residue "
-            "entries with an independently written ambiguity-code map; exhaustive sweep of the code tables",
+            "entries with an independently written ambiguity-code map; exhaustive sweep of the code tables; thorough tier adds atheris/libFuzzer coverage-guided campaigns over the same strategies and oracles",
             "Formula, cell volume, charge, masses and density of generated sequences equal the Fraction-weighted sums of the "
             "base residue entries; order independence, blanks, '*' truncation, the aa:/dna:/rna: prefixes and FASTA reading "
             "(records, wrapping, typing by extension) are checked; the 61 code-table entries are swept exhaustively.",
@@ -110,21 +110,21 @@ CHECKS = {
             "neutron_sld is the reference (decided by C03).",
             "DESIGN.md section 4 C17"),
     "C02": ("Hypothesis-generated operation histories (constructors, f+g, n*f, f+=g over named variables) interpreted "
-            "against a Fraction model with snapshot-based aliasing detection",
+            "against a Fraction model with snapshot-based aliasing detection; thorough tier adds atheris/libFuzzer coverage-guided campaigns over the same strategies and oracles",
             "Each history of up to 30 operations is applied to real Formula objects and to a {(Z,A,charge): Fraction} model; "
             "after every step atoms, mass (ion = atom minus charge electron masses, from element masses), charge, mass "
             "fractions and molecular mass are compared and every other variable must be unchanged.",
             "fractions.Fraction and the served atomic masses are trusted; structure nesting of f+=g is not judged, only its atoms.",
             "DESIGN.md section 4 C02"),
     "C13": ("Hypothesis search over formulas produced by parsing rendered trees, by arithmetic histories and by the mixture "
-            "constructors; print -> parse round trip against the printed-precision structure",
+            "constructors; print -> parse round trip against the printed-precision structure; thorough tier adds atheris/libFuzzer coverage-guided campaigns over the same strategies and oracles",
             "str(f) must parse, and the parsed structure must equal f's structure with every count rounded to six significant "
             "digits and count-1 groups dissolved; atoms by identity; repr and names checked; counts over [1e-20, 1e20].",
             "Count-1 groups are transparent (the grammar cannot denote them); a source string rejected by the parser is "
             "inconclusive here (C01/C11 judge that).",
             "DESIGN.md section 4 C13"),
     "C19": ("Hypothesis search over atom multisets with several constructions (dict, rendered tree, arithmetic) of each; "
-            "composition, ordering, canonicity, idempotence and parse-back relations",
+            "composition, ordering, canonicity, idempotence and parse-back relations; thorough tier adds atheris/libFuzzer coverage-guided campaigns over the same strategies and oracles",
             "For every generated multiset all variants must have equal Hill forms and strings, the Hill form must keep the "
             "atom counts, be ordered C, H, then alphabetical (isotopes by mass number), be idempotent, and a formula "
             "rendered in Hill order and parsed must equal its own Hill form.",
@@ -149,7 +149,7 @@ CHECKS = {
             "corrected in the reader.",
             "DESIGN.md section 4 C20"),
     "C11": ("Hypothesis search over component lists and rendered mixture strings (wt%/vol%, 13 units, layers, nested and "
-            "repeated groups) against a Fraction/float reference of the mass/volume proportions; string vs API differential",
+            "repeated groups) against a Fraction/float reference of the mass/volume proportions; string vs API differential; thorough tier adds atheris/libFuzzer coverage-guided campaigns over the same strategies and oracles",
             "Generated mixtures by weight and volume are compared, after normalisation, with the composition computed from "
             "component masses and densities; zero quantities, formula-unit scaling, density = total mass / total volume, "
             "total_mass and thickness are checked; every string form is translated by the generator into the equivalent "
